@@ -224,3 +224,9 @@ func (c *Ctx) Run(op string, args ...string) string {
 	}
 	return c.Op(line, func() string { return r(c, args) })
 }
+
+// DirectOK is Direct that also returns the verdict.
+func (c *Ctx) DirectOK(ok bool, what string, input map[string]any) bool {
+	c.Direct(ok, what, input)
+	return ok
+}
